@@ -533,7 +533,13 @@ impl Source {
     pub fn uploaders(&self) -> Option<Vec<String>> {
         self.0
             .get("Uploaders")
-            .map(|s| s.split(',').map(|s| s.trim().to_owned()).collect())
+            // a comma may follow the last uploader too (`wrap-and-sort -t`)
+            .map(|s| {
+                s.split(',')
+                    .map(|s| s.trim().to_owned())
+                    .filter(|s| !s.is_empty())
+                    .collect()
+            })
     }
 
     /// Set the uploaders field
